@@ -49,6 +49,49 @@ BUILT = {
         design="DESIGN.md section 6 C04",
         technique="TLA+ path semantics model-checked with TLC + TLC trace validation of recorded get_data calls",
     ),
+    "C05": dict(
+        text=("Rule.tla states the meaning of a rule test (valid iff every selected node satisfies the condition; failures = "
+              "the failing sub-sequence with true paths) and models the mechanisms the code uses (the (value, path) wrapper "
+              "stripped by the first leaf, the truth-table reasons). TLC checks on every tree shape of <= 3 leaves x paths x "
+              "documents that every leaf sees the node value, every failing node has a reason, failures are the failing "
+              "sub-sequence (a wrong wrapper variant is rejected), and judges every recorded Rule.test of the real code."),
+        design="DESIGN.md section 6 C05",
+        technique="TLA+ rule semantics model-checked with TLC + TLC trace validation of recorded Rule.test calls",
+    ),
+    "C06": dict(
+        text=("Schema.tla models validation as a sequential process over the stable shortest-path-first order. TLC checks "
+              "on every sequence of <= 4 rules from a pool (all permutations of all multisets) x documents that verdict, "
+              "failure count, tested count and the (rule, failing path) set are permutation invariant and the order is the "
+              "stable sort; every recorded Schema.validate of random cast-free schemas under all / sampled permutations is "
+              "judged against the process and against the base permutation; the report must be a string naming every "
+              "failing path."),
+        design="DESIGN.md section 6 C06",
+        technique="TLA+ validation process model-checked with TLC (all permutations) + TLC trace validation of recorded validate calls",
+    ),
+    "C07": dict(
+        text=("Totality of validation: in the process model no rule step can abort (three negative configurations, one per "
+              "as-coded deviation, are rejected by TLC); every recorded Schema.validate / Rule.test of well-typed schemas "
+              "over the full callable set, with and without casts, on hostile documents must return and give the "
+              "specification's verdicts."),
+        design="DESIGN.md section 6 C07",
+        technique="TLA+ validation process model-checked with TLC + TLC trace validation of recorded calls on hostile documents",
+    ),
+    "C15": dict(
+        text=("The cast fragment of the validation process (select on the input, replace successful casts in the shared "
+              "private copy, judge on the copy) is model-checked for CastDataExact (every node outside the successful "
+              "casts type-exactly as in the input) with the write-back-uncast deviation rejected; every recorded "
+              "validation with casts is judged for cast_data, per-rule verdicts on the copy and Rule.test(d).data."),
+        design="DESIGN.md section 6 C15",
+        technique="TLA+ cast process model-checked with TLC + TLC trace validation of recorded calls",
+    ),
+    "C17": dict(
+        text=("Rule.tla defines substitution of path-valued arguments (wherever they occur in an argument) by what the path "
+              "selects in the validated document; TLC checks mechanism = substitution on the model (top-level-only "
+              "resolution rejected) and judges every recorded test of cross-referencing rules against the substituted "
+              "rule, additionally comparing with the real verdict of the literal-substituted rule."),
+        design="DESIGN.md section 6 C17",
+        technique="TLA+ substitution semantics model-checked with TLC + TLC trace validation of recorded Rule.test calls",
+    ),
 }
 
 
